@@ -199,7 +199,7 @@ def one(prop, tagsub, tier='quick', seed=1):
     for r in rej:
         for fnd in r['findings']:
             print('rejected at line %d groups=%s' % (fnd['line'], fnd['groups']))
-            for ln in r['lines'][max(0, fnd['line'] - 14):fnd['line']]:
+            for ln in r['lines'][max(0, fnd["line"] - int(os.environ.get("VERIF_CTX", "14"))):fnd['line']]:
                 d = json.loads(ln)
                 e = d.get('env') or {}
                 print('  ', {k: v for k, v in d.items() if v not in ('', 0, -1, []) and k not in ('seq', 'sc', 'conn', 'env')},
